@@ -4,6 +4,8 @@ import z3
 from .sym import relevant_slice, term_vars
 from . import ratform
 
+RAW_FRACTION = 0.25
+STATS = dict(sampled_sat=0, solver_calls=0)
 _RZ = ratform.Rationalizer()  # process-global: z3 ASTs are hash-consed, ids are stable while kept alive
 
 
@@ -28,6 +30,44 @@ def _pure_real(terms):
 
 def check_sat(hyps, term, timeout_ms):
     """sat / unsat / unknown for hyps /\\ term."""
+    from . import sampler
+
+    raw = relevant_slice(list(hyps), [term])
+    key = (frozenset(h.get_id() for h in raw), term.get_id())
+    if key in _CACHE:
+        STATS["cache_hits"] = STATS.get("cache_hits", 0) + 1
+        return _CACHE[key][0]
+    r = _check_sat(raw, hyps, term, timeout_ms)
+    if r != "unknown":
+        _CACHE[key] = (r, raw, term)  # keep the ASTs alive: ids stay unique
+    return r
+
+
+_CACHE = {}
+
+
+def _check_sat(raw, hyps, term, timeout_ms):
+    from . import sampler
+
+    if sampler.witness(raw + [term]):
+        STATS["sampled_sat"] += 1
+        return "sat"
+    STATS["solver_calls"] += 1
+    # (1) z3's default solver on the raw terms (native division kept: sub-terms such
+    # as Rcross stay atomic, which is what interval-style refutations need)
+    s = z3.Solver()
+    s.set("timeout", max(200, int(timeout_ms * RAW_FRACTION)))
+    s.add(*(raw + [term]))
+    try:
+        r = s.check()
+        if r == z3.unsat:
+            STATS["raw_unsat"] = STATS.get("raw_unsat", 0) + 1
+            return "unsat"
+        if r == z3.sat and not ratform.needs_rationalizing(raw + [term]):
+            return "sat"  # no division: z3's model is a real model
+    except z3.Z3Exception:
+        pass
+    # (2) division-free normal form
     hs, (g,) = prepare(hyps, [term])
     terms = hs + [g]
     plan = ["nlsat", "default"] if _pure_real(terms) else ["default"]
@@ -54,4 +94,16 @@ def obligation_smt2(hyps, goal):
     s = z3.Solver()
     s.add(*hs)
     s.add(z3.Not(g))
+    return s.to_smt2()
+
+
+def obligation_smt2_raw(hyps, goal):
+    """The same obligation with z3's native division kept (sub-terms stay atomic);
+    None when it would be identical to the division-free text."""
+    raw = relevant_slice(list(hyps), [goal])
+    if not ratform.needs_rationalizing(raw + [goal]):
+        return None
+    s = z3.Solver()
+    s.add(*raw)
+    s.add(z3.Not(goal))
     return s.to_smt2()
